@@ -78,6 +78,12 @@ func (ex *Exec) binop(op token.Token, xt types.Type, x, y Value, yt types.Type, 
 			return tb.Bin(OMul, a, b)
 		case token.QUO, token.REM:
 			ex.oblige(tb.Not(tb.Eq(b, tb.Const(b.w, 0))), "div", pos, "integer divide by zero")
+			if !b.IsConst() && ex.inSpec == 0 {
+				// symbolic divisors defeat bit-blasting; fork when few values are feasible
+				if v, ok := ex.concretize2(b, 17, "divisor", true); ok {
+					b = tb.Const(b.w, v)
+				}
+			}
 			if op == token.QUO {
 				if signed {
 					return tb.Bin(OSDiv, a, b)
@@ -230,6 +236,12 @@ func (ex *Exec) opaqueBin(op token.Token, o OpaqueFloat) Value {
 	case token.ADD, token.SUB, token.MUL, token.QUO:
 		return o
 	}
+	if ex.w.cfg.FloatHavoc && ex.inSpec == 0 {
+		// over-approximation: the comparison may go either way
+		ex.havocs++
+		t := ex.newSym("~fcmp", 8, false, 0, 1)
+		return ex.tb.Not(ex.tb.Eq(t, ex.tb.Const(8, 0)))
+	}
 	if ex.inSpec > 0 {
 		panic(specAbort{"float compare"})
 	}
@@ -334,6 +346,15 @@ func (ex *Exec) conv(dst, src types.Type, x Value, pos token.Pos) Value {
 		case OpaqueFloat:
 			if ex.inSpec > 0 {
 				panic(specAbort{"float"})
+			}
+			if ex.w.cfg.FloatHavoc {
+				// over-approximation: any value of the target type
+				ex.havocs++
+				_, sg, _ := typeWidth(ud)
+				if sg {
+					return ex.newSym("~fint", dw, true, -1<<63, 1<<63-1)
+				}
+				return ex.newSym("~fint", dw, false, 0, -1)
 			}
 			panic(stopf(StopFloat, "float derived from symbolic data converted to integer at %s", ex.posStr(pos)))
 		}
@@ -493,7 +514,7 @@ func (ex *Exec) callBuiltin(b *ssa.Builtin, args []Value, pos token.Pos) Value {
 		}
 		r := make([]Value, n+len(src), newCap)
 		for i, v := range dst.a {
-			r[i] = v
+			r[i] = copyVal(v) // the old backing array stays independent
 		}
 		for i, v := range src {
 			r[n+i] = copyVal(v)
@@ -539,7 +560,13 @@ func (ex *Exec) callBuiltin(b *ssa.Builtin, args []Value, pos token.Pos) Value {
 		m := args[0].(*Map)
 		if m != nil {
 			ex.noteWrite(m.o, pos, "map delete")
-			delete(m.m, ex.mapKey(args[1]))
+			if e := ex.mapFind(m, args[1]); e != nil {
+				for k, v := range m.m {
+					if v == e {
+						delete(m.m, k)
+					}
+				}
+			}
 		}
 		return nil
 	case "clear":
